@@ -681,7 +681,7 @@ def _message_obligations(b: Builder, proto: ProtoFile, srcs: Sources,
 
 
 # ============================================================================
-def obligations(repo: str = "/repo", sources: dict[str, str] | None = None) -> list[Obligation]:
+def obligations(repo: str | None = None, sources: dict[str, str] | None = None) -> list[Obligation]:
     """All ground obligations of the schema part of C14 for the working tree of ``repo``."""
     srcs = Sources(repo, sources)
     b = Builder(PROP)
